@@ -1,4 +1,11 @@
-"""C07 -- matrix exponential, its integrals, getEPQ variants (partial claim)."""
+"""C07 -- matrix exponential, its integrals, getEPQ variants (partial claim).
+
+Every rule decides on *values*: the functions of pyyeti/expmint.py and pyyeti/ssmodel.py are evaluated by the symbolic interpreter of
+c07_interp.py (constant folding, helpers/closures/methods/properties followed, module-level tables resolved, loops over literal sequences
+unrolled) in the scalar image of the matrix algebra (every matrix is a function of the one matrix A), in *regimes* chosen by the rule
+(norm estimates just below / above a threshold, order 0 / 1, B given or not, structure, method name).  No rule looks at the spelling of the
+source: which locals exist, in which order the arms are written, whether a helper was extracted or a table moved to module level.
+"""
 from __future__ import annotations
 
 import ast
@@ -7,42 +14,22 @@ from math import factorial
 
 from . import e2_formula as F
 from .core import AnchorError, Unsupported
-from .e1_srcmodel import dotted, walk_no_nested, utext
-from .e2_eval import Evaluator, is_unknown, need, const_from_node
+from .e2_eval import is_unknown, need, const_from_node
+from . import c07_interp as I
+from .c07_interp import Interp, Native, Obj, Raised, Ref, fn_parts, clone, to_rat, trip_count
 
 EXPM = "pyyeti/expmint.py"
+SSM = "pyyeti/ssmodel.py"
 
 # Al-Mohy & Higham 2009 (SIAM J. Matrix Anal. Appl. 31) theta_m for m = 3, 5, 7, 9, 13 -- published constants,
 # not copied from the repository
 THETA = {3: Fraction("1.495585217958292e-2"), 5: Fraction("2.539398330063230e-1"),
          7: Fraction("9.504178996162932e-1"), 9: Fraction("2.097847961257068"), 13: Fraction("4.25")}
+EPS = Fraction(1, 2 ** 60)          # probes sit at theta (1 -+ 2^-60): a 16-digit literal that differs from theta in its last digit is seen
+DNAMES = ("d4_loose", "d6_loose", "d8_loose", "d10_loose", "d4_tight", "d6_tight", "d8_tight", "d10_tight")
 
 
-def _scalar_env(prefix, maxpow=10):
-    """self.A -> x, self.A2 -> x^2 ..., self.ident -> 1 (the scalar homomorphism of the matrix polynomial)."""
-    x = F.sym("x")
-    env = {f"{prefix}.A": x, f"{prefix}.ident": F.const(1), f"{prefix}.ssA": x}
-    for k in range(2, maxpow + 1):
-        env[f"{prefix}.A{k}"] = x ** k
-    return env
-
-
-def _call_hook(scipy_uv):
-    def call(node, ev):
-        d = dotted(node.func)
-        if d in ("mf._smart_matrix_product", "np.dot") and len(node.args) >= 2:
-            a, b = ev.ev(node.args[0]), ev.ev(node.args[1])
-            if is_unknown(a):
-                return a
-            if is_unknown(b):
-                return b
-            return need(a) * need(b)
-        if d in ("self.pade7", "self.pade9") and not node.args:
-            return scipy_uv[d]
-        return NotImplemented
-    return call
-
-
+# ------------------------------------------------------------------------------------------------------------ series / order conditions
 def _exp_trunc(n):
     x = F.sym("x")
     return sum((x ** k / factorial(k) for k in range(n + 1)), F.const(0))
@@ -68,32 +55,17 @@ def _low_order(expr, upto):
     return ks[0] if ks else None
 
 
-def _degree(expr):
+def _degree(expr, name="x"):
     expr = F._R(expr)
-    co = F.coeffs_in(expr.n, "x")
+    co = F.coeffs_in(expr.n, name)
     return max(co) if co else 0
 
 
-def _run_method(ctx, fn, prefix, extra_env=None, scipy_uv=None):
-    env = _scalar_env(prefix)
-    env["h"] = F.sym("h")
-    env["s"] = F.sym("s")
-    if extra_env:
-        env.update(extra_env)
-    ev = Evaluator(env=env, src=ctx.src, call=_call_hook(scipy_uv or {}),
-                   store_accept=lambda b, i, st: True)
-    ev.run(fn.body)
-    if not ev.returns:
-        raise AnchorError(f"{fn.name}: no return")
-    return ev.returns[-1][0], ev
-
-
-def _scipy_uv(N):
-    """scipy's own pade7/pade9 (trusted library): the diagonal Pade approximant written as V+U / V-U."""
-    x = F.sym("x")
+def _scipy_uv(N, A):
+    """scipy's own pade7/pade9 (trusted library): the diagonal Pade approximant written as V+U / V-U, on the matrix A."""
     c = [Fraction(factorial(2 * N - j) * factorial(N), factorial(2 * N) * factorial(N - j) * factorial(j)) for j in range(N + 1)]
-    U = sum((c[j] * x ** j for j in range(1, N + 1, 2)), F.const(0))
-    V = sum((c[j] * x ** j for j in range(0, N + 1, 2)), F.const(0))
+    U = sum((c[j] * A ** j for j in range(1, N + 1, 2)), F.const(0))
+    V = sum((c[j] * A ** j for j in range(0, N + 1, 2)), F.const(0))
     return (U, V)
 
 
@@ -101,7 +73,6 @@ def _double_exact(num, den, series, N):
     """the order conditions hold when every literal is read as the double Python computes with: the residual coefficients r_k =
     num_k - sum_j den_j * series_{k-j}, k <= 2N, are within the rounding of the literals (2^-52 relative per coefficient).
     A table retyped with 17 significant digits is the same program; a table with a wrong digit is not."""
-    x = F.sym("x")
     sub = {"h": F.const(1), "s": F.const(0)}
     try:
         num, den, series = (F._R(v).subs(sub) for v in (num, den, series))
@@ -151,105 +122,248 @@ def _check_int(ctx, tag, where, P, Q, N, which, scale):
               None if ok else {"first non-zero residual order": lo, "expected": 2 * N + 1, "deg P": dP, "deg Q": dQ})
 
 
+# ------------------------------------------------------------------------------------------------------------ the scalar image
+def _mul(it, a, b):
+    return it.binop(ast.Mult(), a, b)
+
+
+def _div(it, a, b):
+    return it.binop(ast.Div(), a, b)
+
+
+def scalar_hook(extra=None, d=None, ell=None):
+    """library calls in the scalar image of the algebra generated by one matrix: products commute, solve(a, b) = b / a, eye = 1.
+    `d`: value of every norm estimate d*_loose / d*_tight of scipy's helper; `ell`: value of mf._ell by order."""
+
+    def init_helper(it, pos, kw):
+        o, A = pos[0], pos[1]
+        if not isinstance(o, Obj):
+            return NotImplemented
+        A = to_rat(A)
+        o.attrs["A"] = A
+        o.attrs["ident"] = F.const(1)
+        o.attrs["structure"] = kw.get("structure", pos[2] if len(pos) > 2 else None)
+        o.attrs["use_exact_onenorm"] = kw.get("use_exact_onenorm", pos[3] if len(pos) > 3 else False)
+        if not is_unknown(A):
+            for k in (2, 4, 6, 8, 10):
+                o.attrs[f"A{k}"] = A ** k
+        if d is not None:
+            for nm in DNAMES:
+                o.attrs[nm] = F.const(d)
+        return None
+
+    def hook(it, name, pos, kw, node):
+        if extra is not None:
+            r = extra(it, name, pos, kw, node)
+            if r is not NotImplemented:
+                return r
+        n = len(pos)
+        if name in ("mf._smart_matrix_product", "np.dot", "np.matmul") and n >= 2:
+            return _mul(it, pos[0], pos[1])
+        if name == ".dot" and n == 2:
+            return _mul(it, pos[0], pos[1])
+        if name == "mf._ExpmPadeHelper.__init__" and n >= 2:
+            return init_helper(it, pos, kw)
+        if name == "getattr" and n == 2 and isinstance(pos[0], Obj) and pos[1] in ("pade3", "pade5", "pade7", "pade9"):
+            # a method the class inherits from scipy's helper (trusted library): the diagonal Pade approximant of that order
+            o, N = pos[0], int(pos[1][4:])
+            return Native("scipy:" + pos[1], lambda it_, p_, k_, nd_: _scipy_uv(N, need(o.attrs.get("A"), "helper.A")))
+        if name == "mf._ell" and n == 2:
+            if ell is not None and I.is_const(pos[1]):
+                v = ell.get(int(I.cval(pos[1])))
+                if v is not None:
+                    return F.const(v)
+            return NotImplemented
+        if name == "mf._solve_P_Q" and n >= 2:
+            U, V = to_rat(pos[0]), to_rat(pos[1])
+            if is_unknown(U) or is_unknown(V):
+                return U if is_unknown(U) else V
+            return _div(it, V + U, V - U)
+        if name in ("mf.solve", "mf.spsolve", "mf.solve_triangular", "la.solve", "la.lu_solve", "la.solve_triangular", "np.linalg.solve") and n >= 2:
+            return _div(it, pos[1], pos[0])
+        if name in ("la.lu_factor", "np.asarray", "np.array", "np.atleast_1d", "np.atleast_2d", "np.transpose", "np.real", "np.ascontiguousarray") and n >= 1:
+            return pos[0]
+        if name in ("np.eye", "np.identity"):
+            return F.const(1)
+        if name in ("np.zeros", "np.zeros_like", "np.empty", "np.empty_like"):
+            return F.const(0)
+        if name == "la.inv" and n == 1:
+            return _div(it, F.const(1), pos[0])
+        if name == "la.eig" and n >= 1:
+            return (pos[0], F.const(1))          # eigenvalue = the matrix, eigenvector matrix = 1
+        if name in ("np.log", "np.exp", "np.tan") and n == 1:
+            v = to_rat(pos[0])
+            if is_unknown(v):
+                return v
+            try:
+                return {"np.log": F.log, "np.exp": F.exp, "np.tan": lambda r: F.fn("tan", r)}[name](v)
+            except Unsupported:
+                return NotImplemented
+        return NotImplemented
+
+    return hook
+
+
+def call_oracle(table, other=None):
+    """oracle from {name of an undecided library predicate: bool}; `other(it, value, node)` sees everything else"""
+
+    def oracle(it, v, node):
+        p = fn_parts(v) if isinstance(v, F.Rat) else None
+        if p is not None and p[0].startswith("call:") and p[0][5:] in table:
+            return table[p[0][5:]]
+        if other is not None:
+            return other(it, v, node)
+        return None
+
+    return oracle
+
+
+def _cmp_const(v):
+    """an undecided comparison of one non-constant value with one constant:  (op, value, constant) normalised to `value op constant`"""
+    p = fn_parts(v) if isinstance(v, F.Rat) else None
+    if p is None or not p[0].startswith("cmp:") or len(p[1]) != 2:
+        return None
+    op, (a, b) = p[0][4:], p[1]
+    if not isinstance(a, F.Rat) or not isinstance(b, F.Rat):
+        return None
+    if b.is_const() and not a.is_const():
+        return op, a, b.const_value()
+    if a.is_const() and not b.is_const():
+        flip = {"Lt": "Gt", "LtE": "GtE", "Gt": "Lt", "GtE": "LtE", "Eq": "Eq", "NotEq": "NotEq"}
+        return flip.get(op, op), b, a.const_value()
+    return None
+
+
+def _has_unknown(v):
+    if v is None or is_unknown(v) or isinstance(v, Raised):
+        return True
+    if isinstance(v, (tuple, list)):
+        return any(_has_unknown(x) for x in v)
+    return False
+
+
+def verdict(ctx, ok, title, where, detail=None, values=()):
+    """ok / fail; but when the obligation does not hold *and* one of the values it is about could not be evaluated, that is an analysis
+    error (exit 2), not a violation"""
+    if ok:
+        ctx.ok(title, where)
+        return True
+    if any(_has_unknown(v) for v in values):
+        bad = next(v for v in values if _has_unknown(v))
+        ctx.error(title, where, f"could not evaluate: {bad!r}"[:400])
+        return False
+    ctx.fail(title, where, detail)
+    return False
+
+
+def _last(calls, *suffixes):
+    out = [c for c in calls if any(c.name == s or c.name.endswith("." + s) for s in suffixes)]
+    return out[-1] if out else None
+
+
+LEAF_SOLVES = ("mf.solve", "mf.spsolve", "mf.solve_triangular")
+
+
+# ------------------------------------------------------------------------------------------------------------ R1
 def r1_pade_tables(ctx):
     h = F.sym("h")
+    x = F.sym("x")
     cls = "_ExpmIntPadeHelper"
+    plain = call_oracle({"isspmatrix": False, "isinstance": False})
+    it = Interp(ctx, EXPM, hook=scalar_hook(), oracle=plain)
+    cnode = ctx.src.cls(EXPM, cls)
+    H = it.instantiate(cls, [x], {"structure": None})
+    if not isinstance(H, Obj) or is_unknown(H.attrs.get("A", x)):
+        raise AnchorError(f"{cls}: constructor")
+    # the two cached powers the class adds to scipy's helper
+    for k in (3, 5):
+        v = it._getattr(H, f"A{k}", cnode)
+        ok = isinstance(v, F.Rat) and v.equals(x ** k)
+        verdict(ctx, ok, f"{cls}.A{k} is the {k}-th power of A", cnode, repr(v), [v])
     for N, name in ((3, "pade3_i"), (5, "pade5_i"), (7, "pade7_i"), (9, "pade9_i")):
         fn = ctx.src.func(EXPM, f"{cls}.{name}")
-        uv = {"self.pade7": _scipy_uv(7), "self.pade9": _scipy_uv(9)}
-        ret, ev = _run_method(ctx, fn, "self", scipy_uv=uv)
+        ret = it.method(H, name, [h])
         if not (isinstance(ret, tuple) and len(ret) == 4):
-            ctx.error(f"{name}: return", fn, "expected (U, V, P, Q)")
+            ctx.error(f"{name}: return", fn, f"expected (U, V, P, Q), got {ret!r}"[:300])
             continue
         U, V, P, Q = ret
         if N in (3, 5):
             _check_exp(ctx, f"{cls}.{name}", fn, U, V, N)
         _check_int(ctx, f"{cls}.{name}", fn, P, Q, N, 1, h)
-    # pade13 with scaling: B = A 2^-s, h -> h 2^-s
+    # pade13 with scaling: B = A 2^-s, h -> h 2^-s   (first parameter: number of squarings, second: the step)
     fn = ctx.src.func(EXPM, f"{cls}.pade13_scaled_i")
-    ret, ev = _run_method(ctx, fn, "self")
+    ret = it.method(H, "pade13_scaled_i", [F.sym("s"), h])
     if isinstance(ret, tuple) and len(ret) == 4:
         U, V, P, Q = ret
         sig = F.sym("2^s")
         try:
             # substitute x -> y * 2^s : everything must become a function of y = x 2^-s (and h 2^-s) only
-            sub = {"x": F.sym("x") * sig}
+            sub = {"x": x * sig}
             U2, V2, P2, Q2 = (need(t).subs(sub) for t in (U, V, P, Q))
             for nm, t in (("U", U2), ("V", V2), ("Q", Q2)):
-                ok = not t.depends_on("2^s")
+                ok = not t.depends_on("2^s") and not t.depends_on("s")
                 ctx.check(ok, f"{cls}.pade13_scaled_i: {nm} is a function of A*2^-s only (every B_k carries 2^(-k s))", fn,
                           None if ok else repr(t)[:300])
             _check_exp(ctx, f"{cls}.pade13_scaled_i", fn, U2, V2, 13)
             Pn = P2 * sig  # P carries h 2^-s
-            ok = not Pn.depends_on("2^s")
+            ok = not Pn.depends_on("2^s") and not Pn.depends_on("s")
             ctx.check(ok, f"{cls}.pade13_scaled_i: P is (h 2^-s) times a function of A*2^-s", fn, None if ok else repr(Pn)[:300])
             _check_int(ctx, f"{cls}.pade13_scaled_i", fn, Pn, Q2, 13, 1, h)
         except Unsupported as e:
             ctx.error(f"{cls}.pade13_scaled_i", fn, str(e))
     else:
-        ctx.error("pade13_scaled_i: return", fn, "expected (U, V, P, Q)")
-    # _geti2: arms selected by `pade <= k`
+        ctx.error("pade13_scaled_i: return", fn, f"expected (U, V, P, Q), got {ret!r}"[:300])
+    # _geti2: which table does each order passed by expmint reach, and is it the approximant of the second integral?
     fn = ctx.src.func(EXPM, "_geti2")
-    arms = [n for n in fn.body if isinstance(n, ast.If) and isinstance(n.test, ast.Compare)
-            and isinstance(n.test.left, ast.Name) and n.test.left.id == "pade"]
-    if len(arms) < 4:
-        raise AnchorError("_geti2: expected four `pade <= k` arms")
-    armdeg = []
-    for arm in arms:
-        env = _scalar_env("H")
-        env["h"] = h
-        ev = Evaluator(env=env, src=ctx.src, call=_call_hook({}))
-        ev.run(arm.body)
-        P, Q = ev.env.get("P"), ev.env.get("Q")
-        if P is None or Q is None or is_unknown(P) or is_unknown(Q):
-            ctx.error(f"_geti2 arm `{ast.unparse(arm.test)}`", arm, "no P/Q")
-            armdeg.append((arm, None))
+    E, I1 = F.sym("E"), F.sym("Int")
+    for v in (3, 5, 7, 9):
+        it2 = Interp(ctx, EXPM, hook=scalar_hook(), oracle=plain)
+        H2 = it2.instantiate(cls, [x], {"structure": None})
+        ret = it2.call("_geti2", [H2, E, I1, h, F.const(v)])
+        leaf = _last(it2.calls, *LEAF_SOLVES)
+        if leaf is None or len(leaf.pos) < 2 or is_unknown(leaf.pos[0]) or is_unknown(leaf.pos[1]) or isinstance(ret, Raised):
+            ctx.error(f"_geti2 for order {v}", fn, f"no Pade solve reached: {ret!r}"[:300])
             continue
-        k = _degree(need(Q))
-        armdeg.append((arm, k))
-        _check_int(ctx, f"_geti2[degree {k} table]", arm, P, Q, k, 2, h * h)
-    # which arm does each order passed by expmint select?  (guards evaluated in source order)
-    for v in (3, 5, 7, 9, 13):
-        sel = None
-        for arm, k in armdeg:
-            try:
-                hit = eval(compile(ast.Expression(arm.test), "<guard>", "eval"), {"__builtins__": {}}, {"pade": v})
-            except Exception:  # noqa
-                hit = None
-            if hit:
-                sel = (arm, k)
-                break
-        if v == 13:
-            ctx.check(sel is None, "_geti2: order 13 selects no Pade table (direct solve / power series)", fn,
-                      None if sel is None else ast.unparse(sel[0].test))
-        else:
-            ok = sel is not None and sel[1] == v
-            ctx.check(ok, f"_geti2: order {v} (as passed by expmint) selects the degree-{v} table", sel[0] if sel else fn,
-                      None if ok else {"selected degree": sel[1] if sel else None})
+        Q, P = to_rat(leaf.pos[0]), to_rat(leaf.pos[1])
+        k = _degree(Q)
+        ok = k == v
+        ctx.check(ok, f"_geti2: order {v} (as passed by expmint) selects the degree-{v} table", leaf.node, None if ok else {"selected degree": k})
+        _check_int(ctx, f"_geti2[degree {k} table]", leaf.node, P, Q, k, 2, h * h)
+    it2 = Interp(ctx, EXPM, hook=scalar_hook(), oracle=call_oracle({"isspmatrix": False, "np.allclose": True}))
+    H2 = it2.instantiate(cls, [x], {"structure": None})
+    ret = it2.call("_geti2", [H2, E, I1, h, F.const(13)])
+    leaf = _last(it2.calls, *LEAF_SOLVES)
+    ok = leaf is None and not isinstance(ret, Raised) and not is_unknown(ret)
+    ctx.check(ok, "_geti2: order 13 selects no Pade table (direct solve / power series)", fn, None if ok else repr(leaf or ret)[:300])
     # _ExpmPadeHelper_SS exp tables (block structure abstracted to the scalar homomorphism)
     cls = "_ExpmPadeHelper_SS"
+    it = Interp(ctx, EXPM, hook=scalar_hook(), oracle=plain)
+    H = it.instantiate(cls, [x, x, F.const(1)])
+    if not isinstance(H, Obj):
+        raise AnchorError(f"{cls}: constructor")
     for N, name in ((3, "pade3"), (5, "pade5"), (7, "pade7"), (9, "pade9")):
         fn = ctx.src.func(EXPM, f"{cls}.{name}")
-        ret, ev = _run_method(ctx, fn, "self")
+        ret = it.method(H, name, [])
         if not (isinstance(ret, tuple) and len(ret) == 2):
-            ctx.error(f"{cls}.{name}: return", fn, "expected (U, V)")
+            ctx.error(f"{cls}.{name}: return", fn, f"expected (U, V), got {ret!r}"[:300])
             continue
         _check_exp(ctx, f"{cls}.{name}", fn, ret[0], ret[1], N)
     fn = ctx.src.func(EXPM, f"{cls}.pade13_scaled")
-    ret, ev = _run_method(ctx, fn, "self")
+    ret = it.method(H, "pade13_scaled", [F.sym("s")])
     if isinstance(ret, tuple) and len(ret) == 2:
         try:
-            sub = {"x": F.sym("x") * F.sym("2^s")}
+            sub = {"x": x * F.sym("2^s")}
             U2, V2 = (need(t).subs(sub) for t in ret)
-            ok = not (U2.depends_on("2^s") or V2.depends_on("2^s"))
+            ok = not (U2.depends_on("2^s") or V2.depends_on("2^s") or U2.depends_on("s") or V2.depends_on("s"))
             ctx.check(ok, f"{cls}.pade13_scaled: U, V are functions of A*2^-s only", fn)
             _check_exp(ctx, f"{cls}.pade13_scaled", fn, U2, V2, 13)
         except Unsupported as e:
             ctx.error(f"{cls}.pade13_scaled", fn, str(e))
     else:
-        ctx.error(f"{cls}.pade13_scaled: return", fn, "expected (U, V)")
+        ctx.error(f"{cls}.pade13_scaled: return", fn, f"expected (U, V), got {ret!r}"[:300])
 
 
+# ------------------------------------------------------------------------------------------------------------ R2
 def _double_rounding(ctx):
     """every Pade literal is represented by a double within 2^-53 relative of its decimal text"""
     m = ctx.src.mod(EXPM)
@@ -269,338 +383,436 @@ def _double_rounding(ctx):
     return n, bad
 
 
+class Run:
+    """one evaluation of expmint / _expm_SS in a regime: every norm estimate equals t, _ell is 0 below order 13"""
+
+    def __init__(self, ctx, q, t, geti2=True, triangular=False, sparse=False, follow_geti2=False):
+        self.q = q
+        x, h = F.sym("x"), F.sym("h")
+        self.x, self.h = x, h
+
+        def extra(it, name, pos, kw, node):
+            if name == "_geti2" and not follow_geti2:
+                return F.sym("I2")
+            return NotImplemented
+
+        orc = call_oracle({"isspmatrix": sparse, "isinstance": False, "mf._is_upper_triangular": triangular, "np.allclose": True})
+        self.it = it = Interp(ctx, EXPM, hook=scalar_hook(extra, d=t, ell={3: 0, 5: 0, 7: 0, 9: 0}), oracle=orc)
+        if q == "expmint":
+            self.ret = it.call("expmint", [x, h, geti2])
+            self.A = x * h
+        else:
+            self.ret = it.call("_expm_SS", [x, x, F.const(1)])
+            self.A = x
+        self.pq = _last(it.calls, "mf._solve_P_Q")
+        self.order = None
+        if self.pq is not None and len(self.pq.pos) >= 2:
+            U, V = to_rat(self.pq.pos[0]), to_rat(self.pq.pos[1])
+            if not is_unknown(U) and not is_unknown(V):
+                self.order = _degree(V - U)
+
+    def table_call(self):
+        """the call whose result went into the exp solve: the Pade table method"""
+        cands = [c for c in self.it.calls if isinstance(c.result, tuple) and len(c.result) in (2, 4) and c.name != self.q
+                 and self.pq is not None and I.same_value(c.result[0], self.pq.pos[0]) and I.same_value(c.result[1], self.pq.pos[1])]
+        return cands[0] if cands else None          # the outermost one
+
+
 def r2_thresholds(ctx):
-    """arms of expmint / _expm_SS: threshold constant, _ell order, table function and Return order agree"""
+    """regimes of expmint / _expm_SS: a norm estimate just below theta_m (with _ell = 0) uses the order-m table and tells _geti2 that order,
+    just above it does not; the scaling power of the order-13 route; getEPQ's switch"""
     n, bad = _double_rounding(ctx)
     ctx.check(bad == 0 and n >= 150, f"all {n} Pade-table literals are within 2^-53 relative of their decimal text", EXPM + ":1",
               {"literals": n, "badly rounded": bad})
-    for q, pat in (("expmint", "pade{}_i"), ("_expm_SS", "pade{}")):
+    for q in ("expmint", "_expm_SS"):
         fn = ctx.src.func(EXPM, q)
-        arms = [n_ for n_ in fn.body if isinstance(n_, ast.If) and isinstance(n_.test, ast.BoolOp)]
-        found = {}
-        for arm in arms:
-            cmp_ = [v for v in arm.test.values if isinstance(v, ast.Compare) and isinstance(v.left, ast.Name)
-                    and v.left.id.startswith("eta")]
-            ell = [c for c in ast.walk(arm.test) if isinstance(c, ast.Call) and dotted(c.func) == "mf._ell"]
-            if not cmp_ or not ell:
-                continue
-            thr = const_from_node(cmp_[0].comparators[0], ctx.src)
-            m = ast.literal_eval(ell[0].args[1])
-            calls = [dotted(c.func) for st in arm.body for c in ast.walk(st) if isinstance(c, ast.Call)]
-            tbl = [c for c in calls if c and ("pade" in c)]
-            ret_order = None
-            for st in arm.body:
-                for c in ast.walk(st):
-                    if isinstance(c, ast.Call) and dotted(c.func) == "Return" and c.args:
-                        ret_order = ast.literal_eval(c.args[-1])
-            found[m] = (thr, tbl, ret_order, arm)
         for m in (3, 5, 7, 9):
-            if m not in found:
-                ctx.fail(f"{q}: arm for Pade order {m} present", fn, sorted(found))
+            lo = Run(ctx, q, THETA[m] * (1 - EPS))
+            hi = Run(ctx, q, THETA[m] * (1 + EPS))
+            if lo.order is None or hi.order is None or isinstance(lo.ret, Raised) or isinstance(hi.ret, Raised):
+                ctx.error(f"{q}: regime theta_{m}", fn, f"could not evaluate: {lo.ret!r} / {hi.ret!r}"[:300])
                 continue
-            thr, tbl, ret_order, arm = found[m]
-            ok = thr == THETA[m] and isinstance(arm.test.values[0].ops[0], ast.Lt)
-            ctx.check(ok, f"{q}: order-{m} arm uses theta_{m} (Al-Mohy & Higham) with `<`", arm,
-                      None if ok else {"threshold": str(thr), "theta": str(THETA[m])})
-            want = pat.format(m)
-            ok = any(t.endswith("." + want) for t in tbl)
-            ctx.check(ok, f"{q}: order-{m} arm calls {want}", arm, None if ok else tbl)
+            where = lo.pq.node
+            ok = lo.order == m
+            ctx.check(ok, f"{q}: a norm estimate just below theta_{m} (Al-Mohy & Higham), with ell = 0, uses the order-{m} Pade table", where,
+                      None if ok else {"order used": lo.order, "theta": str(THETA[m])})
+            ok = hi.order > m
+            ctx.check(ok, f"{q}: a norm estimate just above theta_{m} does not use the order-{m} table", hi.pq.node,
+                      None if ok else {"order used": hi.order, "theta": str(THETA[m])})
             if q == "expmint":
-                ctx.check(ret_order == m, f"{q}: order-{m} arm tells _geti2 pade={m}", arm, ret_order)
-        # theta_13 and the scaling
-        th13 = [n_ for n_ in walk_no_nested(fn) if isinstance(n_, ast.Assign) and isinstance(n_.targets[0], ast.Name)
-                and n_.targets[0].id == "theta_13"]
-        ok = bool(th13) and const_from_node(th13[0].value, ctx.src) == THETA[13]
-        ctx.check(ok, f"{q}: theta_13 == 4.25", th13[0] if th13 else fn)
-        sdef = [n_ for n_ in walk_no_nested(fn) if isinstance(n_, ast.Assign) and isinstance(n_.targets[0], ast.Name)
-                and n_.targets[0].id == "s"]
-        txt = [ast.unparse(s_.value).replace(" ", "").replace("2**(-s)", "2**-s") for s_ in sdef]
-        ok = len(txt) == 2 and txt[0] == "max(int(np.ceil(np.log2(eta_5/theta_13))),0)" and "mf._ell(2**-s*" in txt[1] \
-            and txt[1].endswith(",13)")
-        ctx.check(ok, f"{q}: s = max(ceil(log2(eta_5/theta_13)), 0) + ell(2^-s A, 13)", sdef[0] if sdef else fn, txt)
-    # getEPQ switch == theta_9 (the largest norm for which getEPQ1's expmint needs no squaring beyond Pade 9)
+                g = _last(lo.it.calls, "_geti2")
+                ga = g.ordered() if g is not None else []
+                got = ga[4] if len(ga) >= 5 else None
+                ok = got is not None and I.is_const(got) and I.cval(got) == m
+                verdict(ctx, ok, f"{q}: the order-{m} route tells _geti2 pade={m}", g.node if g is not None else where, repr(got), [got])
+        # order 13: scaling power
+        r = Run(ctx, q, Fraction(10))
+        tc = r.table_call()
+        ok = r.order == 13 and tc is not None
+        ctx.check(ok, f"{q}: a norm estimate above theta_9 uses the scaled order-13 table", r.pq.node if r.pq is not None else fn,
+                  None if ok else {"order used": r.order})
+        ta = tc.ordered() if tc is not None else []
+        if len(ta) < 2:
+            ctx.error(f"{q}: scaling power", fn, "no call of the order-13 table method found")
+            continue
+        s_got = ta[1]           # (self, s[, h])
+        env = {"T": F.const(10), "X": r.A}
+        s0 = r.it.expr("max(int(np.ceil(np.log2(T / 4.25))), 0)", env)
+        env["S0"] = s0
+        want = r.it.expr("S0 + mf._ell(2 ** -S0 * X, 13)", env)
+        ok = I.same_value(s_got, want)
+        verdict(ctx, ok, f"{q}: s = max(ceil(log2(eta_5/theta_13)), 0) + ell(2^-s A, 13) with theta_13 = 4.25", tc.node,
+                {"got": repr(s_got)[:300], "want": repr(want)[:300]}, [s_got, want])
+        if q == "expmint":
+            ok = len(ta) >= 3 and I.same_value(ta[2], r.h)
+            verdict(ctx, ok, f"{q}: the order-13 table receives the step h (which it scales by 2^-s itself)", tc.node, repr(ta[2:])[:200], ta[2:3])
+    # getEPQ: switch variable, switch constant, arguments
     fn = ctx.src.func(EXPM, "getEPQ")
-    cmps = [n_ for n_ in walk_no_nested(fn) if isinstance(n_, ast.Compare)]
-    ok = len(cmps) == 1 and isinstance(cmps[0].ops[0], ast.LtE) and \
-        const_from_node(cmps[0].comparators[0], ctx.src) == THETA[9]
-    ctx.check(ok, "getEPQ: switches between getEPQ1 and getEPQ2 at norm1 <= theta_9 = 2.097847961257068", fn)
-    norm = [n_ for n_ in walk_no_nested(fn) if isinstance(n_, ast.Assign) and isinstance(n_.targets[0], ast.Name)
-            and n_.targets[0].id == "norm1"]
-    ok = bool(norm) and ast.unparse(norm[0].value).replace(" ", "") in ("h*np.linalg.norm(A,1)", "np.linalg.norm(A,1)*h")
-    ctx.check(ok, "getEPQ: the switch variable is h * ||A||_1", norm[0] if norm else fn)
-    rets = [n_ for n_ in walk_no_nested(fn) if isinstance(n_, ast.Return)]
-    sig = [ast.unparse(r.value).replace(" ", "") for r in rets]
-    ok = sig == ["getEPQ1(A,h,order,B,half)", "getEPQ2(A,h,order,B,half)"]
-    ctx.check(ok, "getEPQ: both variants receive (A, h, order, B, half) unchanged", fn, sig)
+    A, h, order, B, half = (F.sym(n_) for n_ in ("A", "h", "order", "B", "half"))
+    seen = []
+    res = {}
+    for regime in ("below", "above"):
+        def other(it, v, node, regime=regime):
+            c = _cmp_const(v)
+            if c is None:
+                return None
+            op, val, cst = c
+            seen.append((op, val, cst, node))
+            small = regime == "below"
+            return {"Lt": small, "LtE": small, "Gt": not small, "GtE": not small}.get(op)
+
+        def extra(it, name, pos, kw, node):
+            if name in ("getEPQ1", "getEPQ2"):
+                return F.sym(name + "()")
+            if name in ("np.linalg.norm", "la.norm", "scipy.linalg.norm", "norm") and pos:
+                o = pos[1] if len(pos) > 1 else kw.get("ord")
+                if len(pos) <= 2 and set(kw) <= {"ord"} and o is not None and I.is_const(o) and I.cval(o) == 1:
+                    return F.fn("norm1", to_rat(pos[0]))
+                return F.fn("some-other-norm", *[to_rat(p_) for p_ in pos if not is_unknown(to_rat(p_))])
+            return NotImplemented
+
+        it = Interp(ctx, EXPM, hook=scalar_hook(extra), oracle=call_oracle({}, other))
+        ret = it.call("getEPQ", [A, h, order, B, half])
+        c = _last(it.calls, "getEPQ1", "getEPQ2")
+        res[regime] = (ret, c, it)
+    consts = {c[2] for c in seen}
+    ok = len(consts) == 1 and consts == {THETA[9]}
+    ctx.check(ok, "getEPQ: switches between getEPQ1 and getEPQ2 at theta_9 = 2.097847961257068", seen[0][3] if seen else fn,
+              None if ok else {"switch constants": sorted(str(c) for c in consts)})
+    ok = bool(seen) and all(v.equals(h * F.fn("norm1", A)) for _op, v, _c, _n in seen)
+    known = bool(seen) and all(I.atoms_named(v, "norm1") or I.atoms_named(v, "some-other-norm") for _op, v, _c, _n in seen)
+    if ok or known:
+        ctx.check(ok, "getEPQ: the switch variable is h * ||A||_1", seen[0][3] if seen else fn, None if ok else [repr(s_[1]) for s_ in seen][:3])
+    else:
+        ctx.error("getEPQ: the switch variable is h * ||A||_1", seen[0][3] if seen else fn,
+                  f"the switch variable is not written with a norm function: {[repr(s_[1]) for s_ in seen][:3]}"[:300])
+    good = True
+    detail = {}
+    for regime, want in (("below", "getEPQ1"), ("above", "getEPQ2")):
+        ret, c, it = res[regime]
+        if c is None or c.name != want or not I.same_value(ret, F.sym(want + "()")):
+            good = False
+            detail[regime] = repr(c)[:200]
+            continue
+        got = c.ordered()
+        for i_, (nm, v) in enumerate((("A", A), ("h", h), ("order", order), ("B", B), ("half", half))):
+            if i_ >= len(got) or not I.same_value(got[i_], v):
+                good = False
+                detail[f"{want} argument {i_ + 1} ({nm})"] = repr(got[i_] if i_ < len(got) else None)[:100]
+    ctx.check(good, "getEPQ: getEPQ1 below the switch, getEPQ2 above it, both receive (A, h, order, B, half) unchanged", fn, detail or None)
+    # the route the switch guards: just below the switch constant expmint must still be on a route for which _geti2 has a Pade table
+    if len(consts) == 1:
+        cst = next(iter(consts))
+        r = Run(ctx, "expmint", cst * (1 - EPS), geti2=True, follow_geti2=True)
+        leaf = [c for c in r.it.calls if c.name in LEAF_SOLVES]
+        lu = [c for c in r.it.calls if c.name in ("la.lu_factor", "la.lu_solve")]
+        ok = r.order is not None and r.order <= 9 and len(leaf) >= 2 and not lu
+        ctx.check(ok, "getEPQ: just below its switch constant getEPQ1's expmint is on a Pade route of order <= 9, for which the second "
+                      "integral has its own approximant (not the A^-1 formula / power series of the order-13 route)", fn,
+                  None if ok else {"switch constant": str(cst), "expmint order there": r.order})
+    else:
+        ctx.error("getEPQ: route below the switch", fn, "no single switch constant")
 
 
+# ------------------------------------------------------------------------------------------------------------ R3
 def r3_squaring(ctx):
     fn = ctx.src.func(EXPM, "expmint")
-    loops = [n for n in fn.body if isinstance(n, ast.For)]
-    if len(loops) != 1:
-        raise AnchorError("expmint: squaring loop")
-    lp = loops[0]
-    ok = ast.unparse(lp.iter).replace(" ", "") == "range(s)"
-    ctx.check(ok, "expmint: squaring loop runs s times", lp, ast.unparse(lp.iter))
-    E, I = F.sym("E"), F.sym("Int")
-
-    def call(node, ev):
-        if isinstance(node.func, ast.Attribute) and node.func.attr == "dot" and len(node.args) == 1:
-            a, b = ev.ev(node.func.value), ev.ev(node.args[0])
-            if is_unknown(a) or is_unknown(b):
-                return a if is_unknown(a) else b
-            return need(a) * need(b)
-        return NotImplemented
-
-    ev = Evaluator(env={"E": E, "I": I}, src=ctx.src, call=call)
-    ev.run(lp.body)
-    e2, i2 = ev.env["E"], ev.env["I"]
-    if is_unknown(e2) or is_unknown(i2):
-        ctx.error("expmint squaring body", lp, f"{e2} {i2}")
-        return
-    ok = i2.equals(I + I * E)
-    ctx.check(ok, "expmint: integral doubling uses E before it is squared: I <- I + I.E  (int_0^2h = int_0^h + e^{Ah} int_0^h)", lp,
-              None if ok else repr(i2))
-    ok = e2.equals(E * E)
-    ctx.check(ok, "expmint: E <- E.E", lp, None if ok else repr(e2))
+    x, h = F.sym("x"), F.sym("h")
+    # order-13 route: scaling, squaring loop
+    r = Run(ctx, "expmint", Fraction(10), geti2=True)
+    tc = r.table_call()
+    loops = r.it.loops
+    if len(loops) != 1 or tc is None or not isinstance(r.ret, tuple) or len(r.ret) != 3:
+        ctx.error("expmint: order-13 route", fn, f"expected one squaring loop and (E, I, I2): loops={len(loops)} ret={r.ret!r}"[:300])
+    else:
+        lp = loops[0]
+        ta = tc.ordered()
+        s = ta[1] if len(ta) > 1 else None
+        trip = trip_count(lp)
+        ok = trip is not None and I.same_value(trip, s)
+        verdict(ctx, ok, "expmint: the squaring loop runs s times, s being the scaling power given to the order-13 table", lp.node,
+                {"trip count": repr(trip)[:200], "s": repr(s)[:200]}, [trip, s])
+        nE, nI = (I.sym_name(v) for v in r.ret[:2])
+        suffix = f"@out{lp.k}"
+        if not (nE and nI and nE.endswith(suffix) and nI.endswith(suffix)):
+            ctx.error("expmint: squaring loop", lp.node, f"E, I returned are not the loop's results: {r.ret[:2]!r}"[:300])
+        else:
+            nE, nI = nE[:-len(suffix)], nI[:-len(suffix)]
+            Ein, Iin = lp.in_sym(nE), lp.in_sym(nI)
+            got = lp.out.get(nI)
+            ok = isinstance(got, F.Rat) and got.equals(Iin + Iin * Ein)
+            verdict(ctx, ok, "expmint: integral doubling uses E before it is squared: I <- I + I.E  (int_0^2h = int_0^h + e^{Ah} int_0^h)", lp.node,
+                    repr(got)[:300], [got])
+            got = lp.out.get(nE)
+            ok = isinstance(got, F.Rat) and got.equals(Ein * Ein)
+            verdict(ctx, ok, "expmint: E <- E.E", lp.node, repr(got)[:300], [got])
+            U, V, P, Q = (to_rat(t) for t in tc.result)
+            g = _last(r.it.calls, "_geti2")
+            ga = g.ordered() if g is not None else []
+            ok = I.same_value(lp.init.get(nE), (V + U) / (V - U)) and I.same_value(lp.init.get(nI), P / Q) \
+                and len(ga) >= 5 and I.same_value(tuple(ga[1:5]), (r.ret[0], r.ret[1], h, F.const(13))) \
+                and isinstance(ga[0], Obj) and I.same_value(r.ret[2], F.sym("I2"))
+            verdict(ctx, ok, "expmint (order 13): squaring starts from E = solve(V-U, V+U), I = solve(Q, P); I2 = _geti2(H, E, I, h, 13) on the squared E, I",
+                    lp.node, {"E0": repr(lp.init.get(nE))[:120], "I0": repr(lp.init.get(nI))[:120], "_geti2 arguments": repr(ga[1:5])[:200]},
+                    [lp.init.get(nE), lp.init.get(nI), U, V, P, Q] + ga[1:5])
     # the helper is built on A*h
-    helper = [n for n in walk_no_nested(fn) if isinstance(n, ast.Call) and dotted(n.func) == "_ExpmIntPadeHelper"]
-    ok = bool(helper) and ast.unparse(helper[0].args[0]).replace(" ", "") in ("A*h", "h*A")
-    ctx.check(ok, "expmint: the Pade helper works on A*h", helper[0] if helper else fn)
-    # Return(): E from (U, V), I from (P, Q), I2 from _geti2 with the same h
-    ret = ctx.src.func(EXPM, "expmint.Return")
-    txt = utext(ret)
-    ok = "E=mf._solve_P_Q(U,V,structure=structure)" in txt and "I=_solve_P_Q_2(P,Q,structure=structure)" in txt \
-        and "_geti2(H,E,I,h,pade)" in txt
-    ctx.check(ok, "expmint.Return: E = solve(V-U, V+U), I = solve(Q, P), I2 = _geti2(H, E, I, h, pade)", ret)
+    init = _last(r.it.calls, "_ExpmIntPadeHelper.__init__")
+    ia = init.ordered() if init is not None else []
+    ok = len(ia) >= 2 and I.same_value(ia[1], x * h)
+    verdict(ctx, ok, "expmint: the Pade helper works on A*h", init.node if init is not None else fn, repr(ia[1:2])[:200], ia[1:2] or [None])
+    # orders 3..9: E from (U, V), I from (P, Q), I2 from _geti2 with the same h
+    for m in (3, 5, 7, 9):
+        for geti2 in (True, False):
+            r = Run(ctx, "expmint", THETA[m] * (1 - EPS), geti2=geti2)
+            tc = r.table_call()
+            if tc is None or not isinstance(r.ret, tuple):
+                ctx.error(f"expmint: order-{m} route", fn, f"could not evaluate: {r.ret!r}"[:300])
+                continue
+            U, V, P, Q = (to_rat(t) for t in tc.result)
+            if geti2:
+                g = _last(r.it.calls, "_geti2")
+                ga = g.ordered() if g is not None else []
+                ok = len(r.ret) == 3 and I.same_value(r.ret[0], (V + U) / (V - U)) and I.same_value(r.ret[1], P / Q) \
+                    and I.same_value(r.ret[2], F.sym("I2")) and len(ga) >= 5 and isinstance(ga[0], Obj) \
+                    and I.same_value(tuple(ga[1:4]), (r.ret[0], r.ret[1], h))
+                verdict(ctx, ok, f"expmint (order {m}): E = solve(V-U, V+U), I = solve(Q, P), I2 = _geti2(H, E, I, h, pade)", tc.node,
+                        repr(r.ret)[:300], [r.ret, U, V, P, Q] + ga[1:4])
+            else:
+                ok = len(r.ret) == 2 and I.same_value(r.ret[0], (V + U) / (V - U)) and I.same_value(r.ret[1], P / Q) \
+                    and _last(r.it.calls, "_geti2") is None
+                verdict(ctx, ok, f"expmint (order {m}, geti2 false): returns (E, I) only", tc.node, repr(r.ret)[:300], [r.ret, U, V, P, Q])
+    # _solve_P_Q_2 solves Q X = P whatever the structure
     sp = ctx.src.func(EXPM, "_solve_P_Q_2")
-    calls = [utext(c) for c in ast.walk(sp) if isinstance(c, ast.Call)]
-    ok = "mf.spsolve(Q,P)" in calls and "mf.solve(Q,P)" in calls and "mf.solve_triangular(Q,P)" in calls
-    ctx.check(ok, "_solve_P_Q_2 solves Q X = P on all three structures", sp, calls)
+    P, Q = F.sym("P"), F.sym("Q")
+    for label, sparse, structure, leafname in (("sparse", True, None, "mf.spsolve"), ("general", False, None, "mf.solve"),
+                                               ("upper triangular", False, Ref("mf.UPPER_TRIANGULAR"), "mf.solve_triangular")):
+        it = Interp(ctx, EXPM, hook=scalar_hook(), oracle=call_oracle({"isspmatrix": sparse}))
+        ret = it.call("_solve_P_Q_2", [P, Q], {"structure": structure})
+        leaf = _last(it.calls, *LEAF_SOLVES)
+        ok = isinstance(ret, F.Rat) and ret.equals(P / Q) and leaf is not None and leaf.name == leafname
+        verdict(ctx, ok, f"_solve_P_Q_2 solves Q X = P ({label} matrices: {leafname}(Q, P))", leaf.node if leaf is not None else sp,
+                repr(ret)[:200], [ret])
+    # _expm_SS: squaring of the order-13 result
+    fn = ctx.src.func(EXPM, "_expm_SS")
+    r = Run(ctx, "_expm_SS", Fraction(10))
+    tc = r.table_call()
+    if len(r.it.loops) != 1 or tc is None:
+        ctx.error("_expm_SS: order-13 route", fn, f"expected one squaring loop: {len(r.it.loops)}")
+    else:
+        lp = r.it.loops[0]
+        trip = trip_count(lp)
+        ta = tc.ordered()
+        s = ta[1] if len(ta) > 1 else None
+        ok = trip is not None and I.same_value(trip, s)
+        verdict(ctx, ok, "_expm_SS: the squaring loop runs s times, s being the scaling power given to the order-13 table", lp.node,
+                {"trip count": repr(trip)[:200], "s": repr(s)[:200]}, [trip, s])
+        nX = I.sym_name(r.ret) or ""
+        suffix = f"@out{lp.k}"
+        nX = nX[:-len(suffix)] if nX.endswith(suffix) else None
+        U, V = (to_rat(t) for t in tc.result)
+        ok = nX is not None and isinstance(lp.out.get(nX), F.Rat) and lp.out[nX].equals(lp.in_sym(nX) ** 2) \
+            and I.same_value(lp.init.get(nX), (V + U) / (V - U))
+        verdict(ctx, ok, "_expm_SS: X <- X.X starting from solve(V-U, V+U)", lp.node, repr(r.ret)[:200], [r.ret, lp.out.get(nX) if nX else None, U, V])
 
 
-def _unroll_series(ctx, fn, loop, env, iters):
-    def call(node, ev):
-        if isinstance(node.func, ast.Attribute) and node.func.attr == "dot" and len(node.args) == 1:
-            a, b = ev.ev(node.func.value), ev.ev(node.args[0])
+# ------------------------------------------------------------------------------------------------------------ R4
+def _ordered_hook(extra=None):
+    """matrices as opaque symbols: X[i] is idx(X, i), X.dot(Y) is the ordered product dot(X, Y)"""
+
+    def hook(it, name, pos, kw, node):
+        if extra is not None:
+            r = extra(it, name, pos, kw, node)
+            if r is not NotImplemented:
+                return r
+        if name in (".dot", "np.dot") and len(pos) == 2:
+            a, b = to_rat(pos[0]), to_rat(pos[1])
             if is_unknown(a) or is_unknown(b):
                 return a if is_unknown(a) else b
-            return need(a) * need(b)
-        d = dotted(node.func)
-        if d == "np.eye":
-            return F.const(1)
+            return F.fn("dot", a, b)
+        if name in ("np.asarray", "np.atleast_2d") and pos:
+            return pos[0]
         return NotImplemented
 
-    ev = Evaluator(env=env, src=ctx.src, call=call)
-    pre = []
-    for st in fn.body:
-        if st is loop:
-            break
-        pre.append(st)
-    # only straight-line assignments before the loop
-    ev.run([s for s in pre if isinstance(s, (ast.Assign, ast.AugAssign))])
-    for _ in range(iters):
-        ev.run(loop.body)
-    return ev
+    return hook
+
+
+class Converge:
+    """oracle for a power-series loop: the convergence test (the only undecided comparison) holds K times, then fails"""
+
+    def __init__(self, K, table=None):
+        self.left = K
+        self.table = dict(table or {})
+
+    def __call__(self, it, v, node):
+        p = fn_parts(v) if isinstance(v, F.Rat) else None
+        if p is None:
+            return None
+        if p[0].startswith("call:") and p[0][5:] in self.table:
+            return self.table[p[0][5:]]
+        if p[0].startswith("cmp:") and p[0][4:] in ("Gt", "GtE", "Lt", "LtE"):
+            if self.left > 0:
+                self.left -= 1
+                return p[0][4:] in ("Gt", "GtE")
+            return p[0][4:] in ("Lt", "LtE")
+        return None
 
 
 def r4_siblings(ctx):
-    # getEPQ1 vs getEPQ_pow: P, Q from (I, I2) identically
-    res = {}
-    for q, callee in (("getEPQ1", "expmint"), ("getEPQ_pow", "expmint_pow")):
-        fn = ctx.src.func(EXPM, q)
-        for order in (0, 1):
-            E, I, I2 = F.sym("E"), F.sym("I"), F.sym("I2")
+    Esym, Isym, I2sym, h, B = F.sym("E"), F.sym("I"), F.sym("I2"), F.sym("h"), F.sym("B")
+    A = F.sym("A")
 
-            def call(node, ev, callee=callee):
-                d = dotted(node.func)
-                if d == callee:
-                    if len(node.args) >= 3 or callee == "expmint_pow":
-                        return (E, I, I2)
-                    return (E, I)
-                if d == "_procBhalf":
-                    return tuple(ev.ev(a) for a in node.args)
-                return NotImplemented
-
-            def cond(test, ev, order=order):
-                t = utext(test)
-                if t == "order==1":
-                    return order == 1
-                if t == "order==0":
-                    return order == 0
-                return None
-
-            ev = Evaluator(env={"h": F.sym("h"), "order": F.const(order)}, src=ctx.src, call=call, cond=cond)
-            ev.run(fn.body)
-            if not ev.returns:
-                ctx.error(f"{q}: return", fn)
-                continue
-            ret = ev.returns[-1][0]
-            if not isinstance(ret, tuple) or len(ret) < 3:
-                ctx.error(f"{q}: return shape", fn, repr(ret))
-                continue
-            res[(q, order)] = (ret[0], ret[1], ret[2], fn)
-    want = {1: (F.sym("I2") / F.sym("h"), F.sym("I") - F.sym("I2") / F.sym("h")), 0: (F.sym("I"), F.const(0))}
-    for (q, order), (E_, P_, Q_, fn) in res.items():
-        if is_unknown(P_) or is_unknown(Q_):
-            ctx.error(f"{q} order {order}", fn, f"{P_} {Q_}")
-            continue
-        ok = P_.equals(want[order][0]) and Q_.equals(want[order][1]) and not is_unknown(E_) and E_.equals(F.sym("E"))
-        ctx.check(ok, f"{q}(order={order}): P = {'I2/h' if order else 'I'}, Q = {'I - I2/h' if order else '0'} "
-                      "(first-order hold: int e^{A(h-t)} (1-t/h), int e^{A(h-t)} t/h)", fn,
-                  None if ok else {"P": repr(P_), "Q": repr(Q_)})
-    # _procBhalf
-    fn = ctx.src.func(EXPM, "_procBhalf")
-    txt = utext(fn)
-    ok = "P=P.dot(B)" in txt and "Q=Q.dot(B)" in txt and "P=P[:,:n]" in txt and "Q=Q[:,:n]" in txt and "n=n//2" in txt
-    ctx.check(ok, "_procBhalf: B multiplies from the right; `half` keeps the first n//2 input columns of both P and Q", fn)
-    # expmint_pow: unroll the series loop
-    fn = ctx.src.func(EXPM, "expmint_pow")
-    loops = [n for n in fn.body if isinstance(n, ast.While)]
-    if len(loops) != 1:
-        raise AnchorError("expmint_pow loop")
-    K = 5
-    ev = _unroll_series(ctx, fn, loops[0], {"A": F.sym("a"), "h": F.sym("h")}, K)
-    x = F.sym("a") * F.sym("h")
-    sub = {"x": x}
-    want = {"E": _exp_trunc(K).subs(sub), "Int1": _phi1_trunc(K).subs(sub), "Int2": _phi2_trunc(K).subs(sub)}
-    for nm, w in want.items():
-        got = ev.env.get(nm)
-        if got is None or is_unknown(got):
-            ctx.error(f"expmint_pow {nm}", fn, repr(got))
-            continue
-        ok = got.equals(w)
-        ctx.check(ok, f"expmint_pow: after {K} iterations {nm} is the degree-{K} partial sum of its documented series", loops[0],
-                  None if ok else {"got": repr(got), "want": repr(w)})
-    rets = [n for n in walk_no_nested(fn) if isinstance(n, ast.Return)]
-    ok = bool(rets) and ast.unparse(rets[-1].value).replace(" ", "") in ("(E,h*Int1,h*h*Int2)", "(E,h*Int1,h**2*Int2)")
-    ctx.check(ok, "expmint_pow returns (E, h*Int1, h^2*Int2)", rets[-1] if rets else fn)
-    # _geti2 Taylor fallback
-    fn = ctx.src.func(EXPM, "_geti2")
-    loops = [n for n in fn.body if isinstance(n, ast.While)]
-    if len(loops) != 1:
-        raise AnchorError("_geti2 series loop")
-    ev = _unroll_series(ctx, fn, loops[0], {"H.A": F.sym("x"), "h": F.sym("h")}, K)
-    got = ev.env.get("I2")
-    if got is None or is_unknown(got):
-        ctx.error("_geti2 Taylor I2", fn, repr(got))
-    else:
-        ok = got.equals(_phi2_trunc(K))
-        ctx.check(ok, f"_geti2 fallback: after {K} iterations I2 is the partial sum of sum x^k/((k+2) k!)", loops[0],
-                  None if ok else repr(got))
-    rets = [n for n in fn.body if isinstance(n, ast.Return)]
-    ok = bool(rets) and ast.unparse(rets[-1].value).replace(" ", "") in ("h*h*I2", "(h*h)*I2", "h**2*I2")
-    ctx.check(ok, "_geti2 fallback returns h^2 * I2", rets[-1] if rets else fn)
-    # _geti2 direct arm: I2 = A^-1 (h E h - A^-1 h (E - 1))  with H.A = A h
-    direct = [n for n in ast.walk(fn) if isinstance(n, ast.Try)]
-    if direct:
-        E, x, h = F.sym("E"), F.sym("x"), F.sym("h")
-
-        def call(node, ev):
-            d = dotted(node.func)
-            if d == "la.lu_factor":
-                return ev.ev(node.args[0])
-            if d == "la.lu_solve":
-                a, b = ev.ev(node.args[0]), ev.ev(node.args[1])
-                if is_unknown(a) or is_unknown(b):
-                    return a if is_unknown(a) else b
-                return need(b) / need(a)
-            if d == "np.eye":
-                return F.const(1)
-            return NotImplemented
-
-        ev = Evaluator(env={"H.A": x, "h": h, "E": E}, src=ctx.src, call=call,
-                       cond=lambda t, ev: True if "allclose" in ast.unparse(t) else None)
-        ev.run(direct[0].body)
-        if ev.returns and not is_unknown(ev.returns[-1][0]):
-            got = ev.returns[-1][0]
-            # with E = e^x: int_0^h t e^{At} dt = h^2 (x e^x - e^x + 1)/x^2
-            wantv = h * h * (x * E - E + 1) / (x * x)
-            ok = got.equals(wantv)
-            ctx.check(ok, "_geti2 direct arm equals h^2 (x e^x - e^x + 1)/x^2 with x = A h", direct[0],
-                      None if ok else {"got": repr(got), "want": repr(wantv)})
-        else:
-            ctx.error("_geti2 direct arm", direct[0], "could not evaluate")
-
-
-# ---------------------------------------------------------------------------
-SSM = "pyyeti/ssmodel.py"
-
-
-def _ss_eval(ctx, qual, method, env, prewarp_zero=True):
-    """evaluate one `method` arm of SSModel.c2d / d2c in the scalar image (every matrix is a function of the one matrix A,
-    so they commute; B stays a right factor, C a left factor).  Returns (A, B, C, D) or raises Unsupported."""
-    fn = ctx.src.func(SSM, qual)
-    a_sym = env["__A"]
-
-    def epq(A, h, order, B):
-        E = F.exp(A * h)
-        I1 = (E - 1) / A
-        I2 = (A * h * E - E + 1) / (A * A)      # int_0^h t e^{At} dt
-        if order == 0:
-            P, Q = I1, F.const(0)
-        else:
-            P, Q = I2 / h, I1 - I2 / h
-        if B is not None:
-            P, Q = P * B, Q * B
-        return (E, P, Q)
-
-    def call(node, ev):
-        d = dotted(node.func)
-        if d == "expmint.getEPQ":
-            A = need(ev.ev(node.args[0]), "getEPQ A")
-            h = need(ev.ev(node.args[1]), "getEPQ h")
-            o = need(ev.ev(node.args[2]), "getEPQ order")
-            if not o.is_const():
-                raise Unsupported("getEPQ order is not a literal")
-            B = None
-            for k in node.keywords:
-                if k.arg == "B":
-                    B = need(ev.ev(k.value), "getEPQ B")
-            if len(node.args) > 3:
-                B = need(ev.ev(node.args[3]), "getEPQ B")
-            return epq(A, h, int(o.const_value()), B)
-        if d == "SSModel":
-            return tuple(ev.ev(a) for a in node.args[:4])
-        if d == "np.eye":
-            return F.const(1)
-        if d == "la.lu_factor":
-            return ev.ev(node.args[0])
-        if d in ("la.lu_solve", "la.solve"):
-            x, y = ev.ev(node.args[0]), ev.ev(node.args[1])
-            if is_unknown(x) or is_unknown(y):
-                return x if is_unknown(x) else y
-            return need(y) / need(x)
-        if d == "la.eig":
-            return (ev.ev(node.args[0]), F.const(1))     # scalar image: eigenvalue = the matrix, eigenvector = 1
-        if d == "np.tan":
-            return F.fn("tan", need(ev.ev(node.args[0])))
-        if isinstance(node.func, ast.Attribute) and node.func.attr == "dot" and len(node.args) == 1:
-            x, y = ev.ev(node.func.value), ev.ev(node.args[0])
-            if is_unknown(x) or is_unknown(y):
-                return x if is_unknown(x) else y
-            return need(x) * need(y)
+    def extra(it, name, pos, kw, node):
+        if name == "expmint":
+            g = pos[2] if len(pos) > 2 else kw.get("geti2", False)
+            t = it.truth(g, node)
+            if t is None:
+                return I.Unknown("expmint called with an undecided geti2")
+            return (clone(Esym), clone(Isym), clone(I2sym)) if t else (clone(Esym), clone(Isym))
+        if name == "expmint_pow":
+            return (clone(Esym), clone(Isym), clone(I2sym))
         return NotImplemented
 
-    def cond(test, ev):
-        t = utext(test)
-        if t in ("self.h", "self.hisNone"):
-            return {"self.h": qual.endswith("c2d") and False, "self.hisNone": False}[t]
-        if t.startswith("method=="):
-            return t == f"method=='{method}'" or t == f'method=="{method}"'
-        if t in ("prewarpisNoneorprewarp==0",):
-            return prewarp_zero
-        return None
+    want = {1: ("I2 / h", "I - I2 / h"), 0: ("I", "0.0")}
+    regimes = (("B is None, half false", None, False, "{}"), ("B given", B, False, "({}).dot(B)"),
+               ("B is None, half true", None, True, "({0})[:, :({1}).shape[1] // 2]"))
+    for q in ("getEPQ1", "getEPQ_pow"):
+        fn = ctx.src.func(EXPM, q)
+        for order in (0, 1):
+            for label, Bv, half, shape in regimes:
+                it = Interp(ctx, EXPM, hook=_ordered_hook(extra), erase=False)
+                ret = it.call(q, [A, h, F.const(order), Bv, half])
+                if not isinstance(ret, tuple) or len(ret) != 3:
+                    ctx.error(f"{q}(order={order}; {label}): return", fn, repr(ret)[:300])
+                    continue
+                env = {"I": Isym, "I2": I2sym, "h": h, "B": B, "E": Esym}
+                # all of E, I, I2, P, Q have the shape of A: the column count may be read from any of them
+                shaped = ("E", "I", "I2", want[order][0], want[order][1]) if half else ("E",)
+                wps = [it.expr(shape.format(want[order][0], sh), env) for sh in shaped]
+                wqs = [it.expr(shape.format(want[order][1], sh), env) if order == 1 else F.const(0) for sh in shaped]
+                wp, wq = wps[0], wqs[0]
+                ok = I.same_value(ret[0], Esym) and any(I.same_value(ret[1], v) for v in wps) and any(I.same_value(ret[2], v) for v in wqs)
+                what = {"B is None, half false": "", "B given": " times B from the right", "B is None, half true": ", first half of the columns"}[label]
+                verdict(ctx, ok, f"{q}(order={order}; {label}): E, P = {'I2/h' if order else 'I'}{what}, Q = {('I - I2/h' + what) if order else '0'} "
+                                 "(first-order hold: int e^{A(h-t)} (1-t/h), int e^{A(h-t)} t/h)", fn,
+                        {"P": repr(ret[1])[:200], "Q": repr(ret[2])[:200], "want P": repr(wp)[:200], "want Q": repr(wq)[:200]}, list(ret))
+    # expmint_pow: the power series
+    K = 5
+    fn = ctx.src.func(EXPM, "expmint_pow")
+    a = F.sym("a")
+    it = Interp(ctx, EXPM, hook=scalar_hook(), oracle=Converge(K))
+    ret = it.call("expmint_pow", [a, h])
+    sub = {"x": a * h}
+    if not isinstance(ret, tuple) or len(ret) != 3:
+        ctx.error("expmint_pow: return", fn, repr(ret)[:300])
+    else:
+        for nm, got, w in (("E", ret[0], _exp_trunc(K).subs(sub)), ("I", ret[1], h * _phi1_trunc(K).subs(sub)),
+                           ("I2", ret[2], h * h * _phi2_trunc(K).subs(sub))):
+            ok = isinstance(got, F.Rat) and got.equals(w)
+            verdict(ctx, ok, f"expmint_pow: after {K} terms {nm} is {'h^2 times ' if nm == 'I2' else ('h times ' if nm == 'I' else '')}"
+                             "the partial sum of its documented series", fn, {"got": repr(got)[:300], "want": repr(w)[:300]}, [got])
+    # _geti2: power-series fallback and direct arm (order 13)
+    fn = ctx.src.func(EXPM, "_geti2")
+    x = F.sym("x")
+    for direct in (False, True):
+        it = Interp(ctx, EXPM, hook=scalar_hook(), oracle=Converge(K, {"np.allclose": direct, "isspmatrix": False}))
+        H = it.instantiate("_ExpmIntPadeHelper", [x], {"structure": None})
+        ret = it.call("_geti2", [H, Esym, Isym, h, F.const(13)])
+        if not isinstance(ret, F.Rat):
+            ctx.error("_geti2 " + ("direct arm" if direct else "power series"), fn, repr(ret)[:300])
+            continue
+        if direct:
+            # with E = e^x: int_0^h t e^{At} dt = h^2 (x e^x - e^x + 1)/x^2
+            w = h * h * (x * Esym - Esym + 1) / (x * x)
+            ok = ret.equals(w)
+            ctx.check(ok, "_geti2 direct arm equals h^2 (x e^x - e^x + 1)/x^2 with x = A h", fn, None if ok else {"got": repr(ret)[:300], "want": repr(w)})
+        else:
+            w = h * h * _phi2_trunc(K)
+            ok = ret.equals(w)
+            ctx.check(ok, f"_geti2 fallback: after {K} terms the result is h^2 times the partial sum of sum x^k/((k+2) k!)", fn,
+                      None if ok else {"got": repr(ret)[:300], "want": repr(w)[:300]})
 
-    e = {k: v for k, v in env.items() if not k.startswith("__")}
-    ev = Evaluator(env=e, src=ctx.src, call=call, cond=cond)
-    ev.run(fn.body)
-    if not ev.returns:
-        raise Unsupported(f"{qual}[{method}]: no return reached")
-    ret = ev.returns[-1][0]
-    if not isinstance(ret, tuple) or len(ret) != 4 or any(is_unknown(x) for x in ret):
-        raise Unsupported(f"{qual}[{method}]: {ret!r}")
-    return ret, ev.returns[-1][1] if len(ev.returns[-1]) > 1 else fn
+
+# ------------------------------------------------------------------------------------------------------------ R5
+def _epq(A, h, order, B):
+    E = F.exp(A * h)
+    I1 = (E - 1) / A
+    I2 = (A * h * E - E + 1) / (A * A)      # int_0^h t e^{At} dt
+    if order == 0:
+        P, Q = I1, F.const(0)
+    else:
+        P, Q = I2 / h, I1 - I2 / h
+    if B is not None:
+        P, Q = P * B, Q * B
+    return (E, clone(P), clone(Q))
+
+
+def _ss_hook(it, name, pos, kw, node):
+    if name in ("expmint.getEPQ", "getEPQ", "pyyeti.expmint.getEPQ"):
+        sig = ("A", "h", "order", "B", "half")          # public signature of expmint.getEPQ (R2 evaluates the function itself)
+        if len(pos) > len(sig) or any(k not in sig for k in kw):
+            return I.Unknown("getEPQ called with unexpected arguments")
+        b = {"order": F.const(1), "B": None, "half": False}
+        b.update(dict(zip(sig, pos)))
+        b.update(kw)
+        if "A" not in b or "h" not in b:
+            return I.Unknown("getEPQ called without A, h")
+        A, h, o = to_rat(b["A"]), to_rat(b["h"]), b["order"]
+        if is_unknown(A) or is_unknown(h) or not I.is_const(o) or I.cval(o) not in (0, 1):
+            return I.Unknown("getEPQ with a non-literal order")
+        if b["half"] is not False:
+            return I.Unknown("getEPQ(half=...) in a conversion")
+        B = b["B"]
+        if B is not None:
+            B = to_rat(B)
+            if is_unknown(B):
+                return B
+        return _epq(A, h, int(I.cval(o)), B)
+    return NotImplemented
+
+
+def _ss_oracle(w):
+    def other(it, v, node):
+        c = _cmp_const(v)
+        if c is not None and c[2] == 0 and c[1].equals(w):       # the prewarp frequency of the prewarp cases is not zero
+            return {"Eq": False, "NotEq": True}.get(c[0])
+        return None
+    return call_oracle({"isinstance": False}, other)
+
+
+def _model(it, A, B, C, D, h=None):
+    m = it.instantiate("SSModel", [A, B, C, D] + ([h] if h is not None else []))
+    if not isinstance(m, Obj):
+        raise Unsupported(f"SSModel constructor: {m!r}")
+    return m
+
+
+def _abcd(m, what):
+    if not isinstance(m, Obj) or m.cls is None or m.cls.name != "SSModel":
+        raise Unsupported(f"{what}: result is not an SSModel: {m!r}")
+    out = [m.attrs.get(k) for k in ("A", "B", "C", "D")]
+    if any(not isinstance(v, F.Rat) for v in out):
+        raise Unsupported(f"{what}: {out!r}"[:300])
+    return out
 
 
 def r5_ssmodel(ctx):
@@ -615,16 +827,21 @@ def r5_ssmodel(ctx):
     cfn = ctx.src.func(SSM, "SSModel.c2d")
     dfn = ctx.src.func(SSM, "SSModel.d2c")
     cases = [("zoh", True), ("zoha", True), ("foh", True), ("tustin", True), ("tustin", False)]
+    inplace = {"c2d": [], "d2c": []}
     for method, pw0 in cases:
         tag = method + ("" if method != "tustin" else (" (no prewarp)" if pw0 else " (prewarp)"))
-        env = {"self.A": a, "self.B": b, "self.C": c, "self.D": d, "h": h, "prewarp": F.const(0) if pw0 else w, "__A": a,
-               "method": F.sym("method")}
+        pw = F.const(0) if pw0 else w
         try:
-            (zA, zB, zC, zD), _ = _ss_eval(ctx, "SSModel.c2d", method, env, pw0)
+            it = Interp(ctx, SSM, hook=scalar_hook(_ss_hook), oracle=_ss_oracle(w))
+            s = _model(it, a, b, c, d)
+            it.protected = [s]
+            zm = it.method(s, "c2d", [h], {"method": method, "prewarp": pw})
+            zA, zB, zC, zD = _abcd(zm, f"c2d[{tag}]")
+            inplace["c2d"] += [t for _n, t in it.inplace]
         except Unsupported as e:
-            ctx.error(f"c2d[{tag}]: could not evaluate", cfn, str(e))
+            ctx.error(f"c2d[{tag}]: could not evaluate", cfn, str(e)[:400])
             continue
-        Hz = need(zC) * need(zB) / (z - need(zA)) + need(zD)
+        Hz = zC * zB / (z - zA) + zD
         if method == "tustin":
             k = F.const(2) / h if pw0 else w / F.fn("tan", w * h / 2)
             want = Hs(k * (z - 1) / (z + 1))
@@ -637,51 +854,167 @@ def r5_ssmodel(ctx):
                     "foh": "input linear across the step"}[method]
             what = f"H_z(z) is the exactly sampled response with the {what}"
         ok = Hz.equals(want)
-        ctx.check(ok, f"c2d[{tag}]: {what}", cfn, None if ok else {"got": repr(Hz), "want": repr(want)})
+        ctx.check(ok, f"c2d[{tag}]: {what}", cfn, None if ok else {"got": repr(Hz)[:400], "want": repr(want)[:400]})
+        zh = zm.attrs.get("h")
+        ok = isinstance(zh, F.Rat) and zh.equals(h)
+        ctx.check(ok, f"c2d[{tag}]: the discrete model is constructed with the step h it was computed for", cfn, None if ok else repr(zh))
         # round trip
-        env2 = {"self.A": zA, "self.B": zB, "self.C": zC, "self.D": zD, "self.h": h, "prewarp": F.const(0) if pw0 else w, "__A": zA,
-                "method": F.sym("method")}
         try:
-            (sA, sB, sC, sD), _ = _ss_eval(ctx, "SSModel.d2c", method, env2, pw0)
+            it = Interp(ctx, SSM, hook=scalar_hook(_ss_hook), oracle=_ss_oracle(w))
+            zmod = _model(it, zA, zB, zC, zD, h)
+            it.protected = [zmod]
+            sm = it.method(zmod, "d2c", [], {"method": method, "prewarp": pw})
+            sA, sB, sC, sD = _abcd(sm, f"d2c[{tag}]")
+            inplace["d2c"] += [t for _n, t in it.inplace]
         except Unsupported as e:
-            ctx.error(f"d2c[{tag}]: could not evaluate", dfn, str(e))
+            ctx.error(f"d2c[{tag}]: could not evaluate", dfn, str(e)[:400])
             continue
         for nm, got, wantv in (("A", sA, a), ("B", sB, b), ("C", sC, c), ("D", sD, d)):
-            ok = need(got).equals(wantv)
-            ctx.check(ok, f"d2c[{tag}](c2d[{tag}](s)).{nm} == s.{nm}", dfn, None if ok else repr(got))
+            ok = got.equals(wantv)
+            ctx.check(ok, f"d2c[{tag}](c2d[{tag}](s)).{nm} == s.{nm}", dfn, None if ok else repr(got)[:400])
+    # a conversion leaves the model it converts (and anything the model retains between calls) as it was
+    for nm, fn in (("c2d", cfn), ("d2c", dfn)):
+        ev = sorted(set(inplace[nm]))
+        ctx.check(not ev, f"{nm}: no array reachable from the model being converted (its matrices, anything it keeps between calls) is "
+                          "updated in place", fn, ev or None)
     # both conversions refuse an unknown method (no silent fall-through to some default formula)
-    for fn in (cfn, dfn):
-        last = fn.body[-1]
-        ok = isinstance(last, ast.Raise)
-        ctx.check(ok, f"{fn.name}: an unknown method raises instead of falling through", last)
-    # the discrete model records h / method / prewarp so that d2c can use the same ones
-    rets = [n for n in walk_no_nested(cfn) if isinstance(n, ast.Return) and isinstance(n.value, ast.Call) and dotted(n.value.func) == "SSModel"]
-    ok = len(rets) == 4 and all(len(r.value.args) >= 5 and utext(r.value.args[4]) == "h" for r in rets)
-    ctx.check(ok, "c2d: every discrete model is constructed with the step h it was computed for", cfn)
+    for nm, fn in (("c2d", cfn), ("d2c", dfn)):
+        try:
+            it = Interp(ctx, SSM, hook=scalar_hook(_ss_hook), oracle=_ss_oracle(w))
+            if nm == "c2d":
+                r = it.method(_model(it, a, b, c, d), "c2d", [h], {"method": "no such method"})
+            else:
+                r = it.method(_model(it, a, b, c, d, h), "d2c", [], {"method": "no such method"})
+        except Unsupported as e:
+            ctx.error(f"{nm}: unknown method", fn, str(e)[:300])
+            continue
+        ok = isinstance(r, Raised)
+        ctx.check(ok, f"{nm}: an unknown method raises instead of falling through", r.node if ok else fn, None if ok else repr(r)[:200])
+
+
+# ------------------------------------------------------------------------------------------------------------ R6
+FLOAT_DTYPES = {"float", "np.float64", "np.double", "np.float_", "np.longdouble", "complex", "np.complex128", "np.complex_", "'float64'", "'d'",
+                "'float'", "'f8'", "'complex128'", "'complex'"}
+
+
+def r6_augmented(ctx):
+    """getEPQ2: the augmented matrix handed to _expm_SS holds A h, B h (and the identity for a first-order hold) in the blocks the exponential
+    of which contains E, P, Q; it can hold them (floating dtype whatever the dtypes of A and h); E, P, Q are the blocks documented"""
+    fn = ctx.src.func(EXPM, "getEPQ2")
+    A, h, B = F.sym("A"), F.sym("h"), F.sym("B")
+    for order in (0, 1):
+        bufs = {}
+
+        def extra(it, name, pos, kw, node, bufs=bufs):
+            if name in ("np.zeros", "np.empty") and pos:
+                s = F.sym(f"buffer{len(bufs) + 1}")
+                bufs[I.sym_name(s)] = (pos[0], pos[1] if len(pos) > 1 else kw.get("dtype"), node)
+                return s
+            if name in ("np.eye", "np.identity") and len(pos) == 1:
+                return F.fn("eye", to_rat(pos[0]))
+            if name == "_expm_SS":
+                return F.sym("EM")
+            return NotImplemented
+
+        it = Interp(ctx, EXPM, hook=_ordered_hook(extra), erase=False)
+        ret = it.call("getEPQ2", [A, h, F.const(order), B, False])
+        call = _last(it.calls, "_expm_SS")
+        tag = f"getEPQ2(order={order})"
+        ca = call.ordered() if call is not None else []
+        if not isinstance(ret, tuple) or len(ret) != 3 or len(ca) < 3:
+            ctx.error(f"{tag}: could not evaluate", fn, repr(ret)[:300])
+            continue
+        M = ca[0]
+        mname = I.sym_name(M)
+        if mname not in bufs:
+            ctx.error(f"{tag}: augmented matrix", call.node, f"first argument of _expm_SS is not a freshly allocated array: {M!r}"[:200])
+            continue
+        shape, dtype, znode = bufs[mname]
+        # dtype
+        if dtype is None:
+            ctx.ok(f"{tag}: the augmented matrix is allocated with the default (float64) dtype", znode)
+        else:
+            dn = dtype.name if isinstance(dtype, Ref) else (repr(dtype) if isinstance(dtype, str) else None)
+            if dn in FLOAT_DTYPES:
+                ctx.ok(f"{tag}: the augmented matrix is allocated as a floating array ({dn}), so it holds A h and B h whatever the dtypes of A, B, h", znode)
+            else:
+                dv = to_rat(dtype)
+                inherits = not is_unknown(dv) and I.atoms_named(dv, "attr:dtype")
+                p = fn_parts(dv) if isinstance(dv, F.Rat) else None
+                promoted = p is not None and p[0] in ("call:np.result_type", "call:np.promote_types", "call:np.common_type") \
+                    and (p[0].endswith("common_type") or any(isinstance(x, F.Rat) and I.sym_name(x) in ("float", "np.float64", "complex") for x in p[1]))
+                if promoted:
+                    ctx.ok(f"{tag}: the augmented matrix is allocated with a dtype promoted with float", znode)
+                elif inherits:
+                    ctx.fail(f"{tag}: the augmented matrix is allocated as a floating array, so it holds A h and B h whatever the dtypes of A, B, h", znode,
+                             {"dtype": repr(dv)[:200], "why": "the dtype is inherited from an input: integer A and h give an integer array and B h is truncated when stored"})
+                else:
+                    ctx.error(f"{tag}: dtype of the augmented matrix", znode, f"cannot decide whether {dv!r} is a floating dtype"[:200])
+        # blocks
+        env = {"A": A, "h": h, "B": B, "M": M, "EM": F.sym("EM"), "n": None, "i": None, "r": None}
+        env["n"] = it.expr("A.shape[0]", env)
+        env["i"] = it.expr("B.shape[1]", env)
+        env["r"] = it.expr("B.shape[0]", env)
+        want_shape = it.expr("(n + 2 * i, n + 2 * i)" if order == 1 else "(n + i, n + i)", env)
+        ok = I.same_value(shape, want_shape)
+        verdict(ctx, ok, f"{tag}: the augmented matrix is square of size n + {'2 i' if order else 'i'}", znode, repr(shape)[:200], [shape])
+        blocks = [("M[:n, :n]", "A * h", "A h in the leading block")]
+        if order == 1:
+            blocks += [("M[:r, n:n + i]", "B * h", "B h to the right of it"), ("M[n:n + i, n + i:]", "np.eye(i)", "the identity coupling u and du")]
+        else:
+            blocks += [("M[:r, n:]", "B * h", "B h to the right of it")]
+        cells = [(ix, v, st) for base, ix, v, st, aug in it.cells if I.same_value(base, M) and not aug]
+        augs = [st for base, ix, v, st, aug in it.cells if I.same_value(base, M) and aug]
+        for where_txt, val_txt, what in blocks:
+            wi = fn_parts(it.expr(where_txt, env))[1][1]
+            wv = it.expr(val_txt, env)
+            hit = [c_ for c_ in cells if I.same_value(c_[0], wi)]
+            ok = len(hit) == 1 and I.same_value(hit[0][1], wv)
+            verdict(ctx, ok, f"{tag}: {what} ({where_txt} = {val_txt})", hit[0][2] if hit else znode,
+                    {"stores": [(repr(c_[0])[:80], repr(c_[1])[:80]) for c_ in cells]}, [c_[0] for c_ in cells] + [c_[1] for c_ in cells])
+        ok = len(cells) == len(blocks) and not augs
+        ctx.check(ok, f"{tag}: nothing else is stored into the augmented matrix", znode, None if ok else len(cells))
+        ok = I.same_value(ca[1], A * h) and I.same_value(ca[2], F.const(order))
+        verdict(ctx, ok, f"{tag}: _expm_SS receives the augmented matrix, A h and the order", call.node, repr(ca[1:])[:200], ca[1:3])
+        outs = {"E": "EM[:n, :n]"}
+        if order == 1:
+            outs.update({"Q": "EM[:n, n + i:]", "P": "EM[:n, n:n + i] - EM[:n, n + i:]"})
+        else:
+            outs.update({"P": "EM[:n, n:]", "Q": "0.0"})
+        for nm, got in zip(("E", "P", "Q"), ret):
+            wv = it.expr(outs[nm], env)
+            ok = I.same_value(got, wv)
+            verdict(ctx, ok, f"{tag}: {nm} = {outs[nm]}", fn, repr(got)[:200], [got])
 
 
 RULES = [
-    ("C07-R1", r1_pade_tables, 27),
-    ("C07-R2", r2_thresholds, 25),
-    ("C07-R3", r3_squaring, 6),
-    ("C07-R4", r4_siblings, 11),
-    ("C07-R5", r5_ssmodel, 28),
+    ("C07-R1", r1_pade_tables, 29),
+    ("C07-R2", r2_thresholds, 29),
+    ("C07-R3", r3_squaring, 18),
+    ("C07-R4", r4_siblings, 17),
+    ("C07-R5", r5_ssmodel, 34),
+    ("C07-R6", r6_augmented, 19),
 ]
 LEVEL = "other"
 EXPLANATION = ("Static: every Pade coefficient table in expmint.py (17 tables) is extracted under the scalar homomorphism A->x and checked, "
                "in exact rational arithmetic on the literals' decimal text, to satisfy the order conditions of the diagonal approximant of "
-               "exp(x), sum x^k/(k+1)! and sum x^k/((k+2)k!); arm thresholds equal the published theta_m and agree with the _ell order, table and "
-               "_geti2 order of the same arm; scaling by 2^-s is uniform; the squaring loop updates the integral before squaring E; "
-               "getEPQ1/getEPQ_pow build P,Q identically; the power-series loops produce the documented partial sums; getEPQ switches at theta_9; "
-               "SSModel.c2d/d2c formulas are evaluated symbolically per method: hold-equivalent / bilinear transfer function and round trip.")
+               "exp(x), sum x^k/(k+1)! and sum x^k/((k+2)k!); expmint/_expm_SS are evaluated in regimes just below and above each published theta_m: "
+               "the table used, the order told to _geti2, the scaling power and the squaring loop (trip count, I <- I + I.E before E <- E.E) are values "
+               "of that evaluation; getEPQ1/getEPQ_pow build P,Q identically in every B/half regime; the power-series loops produce the documented partial "
+               "sums; getEPQ switches at theta_9, which bounds the route with a Pade table for the second integral; getEPQ2's augmented matrix "
+               "(blocks, floating dtype, partition of the result); SSModel.c2d/d2c per method: hold-equivalent / bilinear transfer function, round trip, "
+               "no in-place update of retained arrays.")
 MANIFEST = {
     "text": "Partial claim decided statically: (R1) all 17 Pade tables are exact diagonal approximants (order conditions to O(x^(2N+1)) in exact rationals), "
-            "with 2^-s scaling applied uniformly; (R2) per-arm threshold/ell-order/table/_geti2-order agreement with the published theta_m, getEPQ's switch; "
-            "(R3) squaring loop I <- I + I.E before E <- E.E; (R4) getEPQ1 == getEPQ_pow in P,Q construction, power-series partial sums, direct I2 formula; "
+            "with 2^-s scaling applied uniformly; (R2) regimes just below/above each published theta_m select the order-m table and tell _geti2 that order, "
+            "the order-13 scaling power, getEPQ's switch constant and the route it guards; "
+            "(R3) squaring loop runs s times with I <- I + I.E before E <- E.E, E/I/I2 assembled from the table of the route, _solve_P_Q_2 per structure; "
+            "(R4) getEPQ1 == getEPQ_pow in P,Q construction for B given / half, power-series partial sums, direct I2 formula; "
             "(R5) SSModel.c2d/d2c per method (zoh, zoha, foh, tustin with and without prewarp): the discrete transfer function is the exactly sampled one for the "
-            "stated hold / the bilinear substitution of the continuous one, and d2c(c2d(s)) = s, in the scalar image. "
+            "stated hold / the bilinear substitution of the continuous one, d2c(c2d(s)) = s, in the scalar image; conversions do not update retained arrays in place; "
+            "(R6) getEPQ2's augmented matrix: blocks, floating dtype, partition of exp(M) into E, P, Q. "
             "Not decided: floating-point accuracy, scipy's norm estimates and solves, conditioning, the block structure of _ExpmPadeHelper_SS beyond its scalar image.",
     "note": "Trusted: CPython ast; exact Fraction arithmetic; scipy's _ExpmPadeHelper.pade7/pade9 are taken to be the diagonal Pade approximants (library). "
             "The matrix polynomial identities are checked through the scalar homomorphism A -> x (sound for polynomials in one matrix).",
-    "technique": "static extraction of coefficient tables and matrix-polynomial formulas + exact rational order-condition checks; structural arm/threshold agreement",
+    "technique": "symbolic evaluation of the functions (helpers followed, module tables folded) in rule-chosen regimes + exact rational order-condition checks",
 }
